@@ -146,10 +146,42 @@ def arrow_keeps(opname, v, v_null, lit, inlist):
     raise ValueError(opname)
 
 
-def h_sound(colkind, litkind, bounds_shape="present"):
+def h_sound(colkind, litkind, bounds_shape="present", float32=False):
+    """float32=True: the column is a 32-bit float column.  T-arrow: is_in casts the VALUE SET to the column's type, so the row with
+    value v is kept by `col IN (..., e, ...)` iff v == round32(e); comparisons (==, <, ...) widen the column instead.  The bounds
+    stored for the file are the widened column values.  The witness list element is then a double e with round32(e) == v."""
     def harness(h: H):
         c = h.ctx
         lo, hi, v = sym(h, colkind, "file_min"), sym(h, colkind, "file_max"), sym(h, colkind, "row_value")
+        w_elem = v
+        R32 = z3.Function("arrow.round_to_float32", z3.RealSort(), z3.RealSort())
+
+        # T-py struct: unpack("f", pack("f", x))[0] = x rounded to a 32-bit float (the same rounding is_in applies); pack raises
+        # OverflowError for finite values beyond the float32 range, struct.error for non-numbers
+        def s_pack(I, a, k):
+            x = I.force(a[1])
+            if isinstance(x, SXReal):
+                if I.ctx.flip("beyond-float32-range"):
+                    raise PyRaise(SExc("OverflowError", origin="struct.pack('f'): float too large", fields={}))
+                return TheoryObj("packed32", fields={"x": x})
+            if isinstance(x, (SInt, int)) and not isinstance(x, bool):
+                if I.ctx.flip("beyond-float32-range"):
+                    raise PyRaise(SExc("OverflowError", origin="struct.pack('f'): int too large", fields={}))
+                r = z3.ToReal(pyops.int_z(x))
+                return TheoryObj("packed32", fields={"x": SXReal(z3.BoolVal(False), z3.IntVal(0), r)})
+            raise PyRaise(SExc("struct.error", origin="struct.pack('f'): required argument is not a float", fields={}))
+
+        def s_unpack(I, a, k):
+            x = I.force(a[1]).fields["x"]
+            return (SXReal(x.nan, x.inf, R32(x.r)),)
+        h.reg.modfuncs["struct.pack"] = s_pack
+        h.reg.modfuncs["struct.unpack"] = s_unpack
+        if float32:
+            w_elem = sym(h, "float", "in_list_element_before_rounding")
+            # round32: identity on representable values (column values and bounds are), and the list element rounds to the row value
+            h.assume(z3.And(z3.Not(w_elem.nan), w_elem.inf == 0, z3.Not(v.nan), v.inf == 0, R32(w_elem.r) == v.r, R32(v.r) == v.r,
+                            R32(lo.r) == lo.r, R32(hi.r) == hi.r), "T-arrow: is_in rounds the value set to the column type (float32)")
+            g_f32 = z3.Or(w_elem.r != v.r)
         v_null = z3.Bool("row_is_null")
         h.report("row_is_null", v_null)
         inlist = z3.Bool("row_value_in_IN_list")
@@ -168,7 +200,7 @@ def h_sound(colkind, litkind, bounds_shape="present"):
                     if I2.ctx.flip("in-elem-none"):
                         return None
                     return mk_lit(I2, "in_elem")
-                value = TheoryObj("symiter", fields={"mk": mk_elem, "witnesses": [(v, inlist)]})
+                value = TheoryObj("symiter", fields={"mk": mk_elem, "witnesses": [(w_elem, inlist)]})
             elif opname in ("IS_NULL", "IS_NOT_NULL"):
                 value = None
             else:
@@ -190,6 +222,10 @@ def h_sound(colkind, litkind, bounds_shape="present"):
             lb, ub = None, None
         elif bounds_shape == "missing-lower":
             lb, ub = PDict({8: lo}), PDict({7: hi})
+        elif bounds_shape == "other-columns-only":
+            # statistics for OTHER columns, none for the filtered one (binary/fixed columns never get bounds; append_files takes
+            # pre-built files with partial statistics): nothing is known about the column
+            lb, ub = PDict({8: lo, 9: lo}), PDict({8: hi, 9: hi})
         else:
             lb, ub = PDict({7: lo}), PDict({})
         df = SObj("DataFile", {"file_path": "/data/f.parquet", "lower_bounds": lb, "upper_bounds": ub})
@@ -217,6 +253,10 @@ def h_sound(colkind, litkind, bounds_shape="present"):
             classes = []
             if colkind == "float":
                 classes = [("nan-row-invisible-to-bounds", z3.And(z3.Not(v_null), isnan(v)))]
+            if float32:
+                if opname not in ("IN", "NOT_IN"):
+                    return          # comparisons widen the column: covered by the float/float unit
+                classes = [("float32-column:IN-list-literal-rounded-to-the-column-type-by-is_in", g_f32)]
             h.ensure(f"SOUND({opname}):skipped-file-has-no-matching-row", z3.Implies(pre, z3.Not(keeps)), classes=classes,
                      detail=f"column kind {colkind}, literal kind {litkind}")
             h.cover(f"SOUND({opname}):skip-reachable")
@@ -293,8 +333,62 @@ KIND_PAIRS = [("int", "int"), ("float", "float"), ("str", "str"), ("bool", "bool
 for _ck, _lk in KIND_PAIRS:
     register(Unit(P, f"SOUND/{_ck}-col/{_lk}-lit", h_sound(_ck, _lk), functions=[f"{FL}:_file_may_match"],
                   replay=_replay_sound(_ck, _lk), z3_timeout_ms=20000))
-for _shape in ("none", "missing-lower", "missing-upper"):
-    register(Unit(P, f"SOUND/bounds-{_shape}", h_sound("int", "int", _shape), functions=[f"{FL}:_file_may_match"]))
+def _replay_partial_bounds(ob):
+    return '''
+import sys, os, tempfile, shutil
+from datashard import create_table, load_table
+from datashard.data_structures import Schema
+root = tempfile.mkdtemp(prefix="pyvc_replay_")
+bad = []
+try:
+    # a binary column never gets bounds, the long column does: the file carries statistics for OTHER columns only
+    p = os.path.join(root, "t")
+    t = create_table(p, schema=Schema(schema_id=1, fields=[{"id": 1, "name": "a", "type": "long", "required": False},
+                                                           {"id": 2, "name": "b", "type": "binary", "required": False}]))
+    t.append_records([{"a": 1, "b": b"xy"}, {"a": 2, "b": b"zz"}])
+    for flt, want in (({"b": b"xy"}, [1]), ({"b": ("is_not_null", None)}, [1, 2]), ({"b": ("in", [b"zz", b"q"])}, [2])):
+        try:
+            got = sorted(r["a"] for r in load_table(p).scan(filter=flt))
+        except Exception as e:
+            got = "raised " + type(e).__name__
+        if got != want: bad.append(("filter on a column without bounds", flt, got, want))
+finally:
+    shutil.rmtree(root, ignore_errors=True)
+print("replay partial bounds ->", bad or "ok")
+sys.exit(1 if bad else 0)
+'''
+
+
+def _replay_float32(ob):
+    return '''
+import sys, os, tempfile, shutil
+from datashard import create_table, load_table
+from datashard.data_structures import Schema
+import datashard.filters as F, datashard.transaction as T
+root = tempfile.mkdtemp(prefix="pyvc_replay_")
+bad = []
+try:
+    p = os.path.join(root, "t")
+    t = create_table(p, schema=Schema(schema_id=1, fields=[{"id": 1, "name": "f", "type": "float", "required": False}, {"id": 2, "name": "k", "type": "long", "required": False}]))
+    t.append_records([{"f": 0.1, "k": 1}, {"f": 0.1, "k": 2}]); t.append_records([{"f": 5.0, "k": 3}])
+    real = F.prune_files_by_bounds
+    for flt in ({"f": ("in", [0.1])}, {"f": ("not_in", [0.1])}, {"f": ("in", [5.0, 0.1])}):
+        res = []
+        for fn in (real, lambda files, *a, **k: list(files)):
+            F.prune_files_by_bounds = fn
+            try: res.append(sorted(r["k"] for r in load_table(p).scan(filter=flt)))
+            finally: F.prune_files_by_bounds = real
+        if res[0] != res[1]: bad.append(("float32 column: pruning changes the answer", flt, "pruned", res[0], "unpruned", res[1]))
+finally:
+    shutil.rmtree(root, ignore_errors=True)
+print("replay float32 IN ->", bad or "ok")
+sys.exit(1 if bad else 0)
+'''
+
+
+register(Unit(P, "SOUND/float32-col/IN-list", h_sound("float", "float", float32=True), functions=[f"{FL}:_file_may_match"], replay=_replay_float32, z3_timeout_ms=20000))
+for _shape in ("none", "missing-lower", "missing-upper", "other-columns-only"):
+    register(Unit(P, f"SOUND/bounds-{_shape}", h_sound("int", "int", _shape), functions=[f"{FL}:_file_may_match"], replay=_replay_partial_bounds))
 
 
 # =================================================================================== ROUNDTRIP
@@ -621,3 +715,17 @@ register(Unit(P, "BOUNDS/_compute_column_bounds", h_bounds, functions=[f"{DO}:Da
 from contracts import C11_appends as _c11  # noqa: E402
 register(Unit("C13", "ID-CONSISTENT/_schema_signature", _c11.h_signature, functions=["transaction:Transaction._schema_signature"], replay=None))
 register(Unit("C13", "ID-CONSISTENT/_validate_schema_against_table", _c11.h_validate, functions=["transaction:Transaction._validate_schema_against_table"], replay=None))
+
+
+# the bounds the pruner trusts are computed on the write path: the statistics of a data file come from the very records written
+def _h_write_whole(h):            # C11_appends imports this module: resolve it at run time
+    from contracts import C11_appends as _c11w
+    return _c11w.h_write_data_file(h)
+
+
+def _replay_write_whole(ob):
+    from contracts import C11_appends as _c11w
+    return _c11w._replay_c11(ob)
+
+
+register(Unit(P, "BOUNDS-WHOLE/write_data_file", _h_write_whole, functions=["data_operations:DataFileManager.write_data_file"], replay=_replay_write_whole))
